@@ -109,6 +109,9 @@ type Plan struct {
 	NoModel bool
 	// Limit > 0: the program is a sweep of values at the reader's limits (see LimitKinds)
 	Limit, LimitIdx, LimitPos int
+	// InfoTexts: the text fields of the Info dictionary (Title, Author, Subject, Keywords, Creator,
+	// Producer, Custom["X"]), to be read back exactly
+	InfoTexts []string
 }
 
 // BatchSizes are the sizes of WriteCompressed batches that get explored beyond the small ones:
@@ -815,6 +818,21 @@ func (x *runner) compressed(plan *Plan) bool {
 		refs = append(refs, ref)
 		objs = append(objs, o)
 	}
+	// the references need not come in the order of their numbers: descending, or shuffled
+	if k >= 2 {
+		switch x.r.IntN(3) {
+		case 1:
+			for i, j := 0, len(refs)-1; i < j; i, j = i+1, j-1 {
+				refs[i], refs[j] = refs[j], refs[i]
+				objs[i], objs[j] = objs[j], objs[i]
+			}
+		case 2:
+			x.r.Shuffle(len(refs), func(i, j int) {
+				refs[i], refs[j] = refs[j], refs[i]
+				objs[i], objs[j] = objs[j], objs[i]
+			})
+		}
+	}
 	if plan.Invalid && k > 0 {
 		plan.Invalid = false
 		x.res.Provoked = true
@@ -1001,17 +1019,37 @@ func Run(r *rand.Rand, cfg Config, plan Plan) *Result {
 	}
 	info := &pdf.Info{}
 	res.InfoDict = pdf.Dict{}
-	if r.IntN(2) == 0 {
-		t := []string{"Title", "Tïtle (ü)", "日本語", "a)b(c\\"}[r.IntN(4)]
-		info.Title = pdf.TextString(t)
-		res.InfoDict["Title"] = pdf.TextString(t).AsPDF(x.w.GetOptions())
+	if len(plan.InfoTexts) > 0 {
+		set := func(key string, dst *pdf.TextString, t string) {
+			if t != "" {
+				*dst = pdf.TextString(t)
+				res.InfoDict[pdf.Name(key)] = pdf.TextString(t).AsPDF(x.w.GetOptions())
+			}
+		}
+		tx := append(append([]string{}, plan.InfoTexts...), make([]string, 7)...)
+		set("Title", &info.Title, tx[0])
+		set("Author", &info.Author, tx[1])
+		set("Subject", &info.Subject, tx[2])
+		set("Keywords", &info.Keywords, tx[3])
+		set("Creator", &info.Creator, tx[4])
+		set("Producer", &info.Producer, tx[5])
+		if tx[6] != "" {
+			info.Custom = map[string]string{"X": tx[6]}
+			res.InfoDict["X"] = pdf.TextString(tx[6]).AsPDF(x.w.GetOptions())
+		}
+	} else {
+		if r.IntN(2) == 0 {
+			t := []string{"Title", "Tïtle (ü)", "日本語", "a)b(c\\", "non\u00a0breaking soft\u00adhyphen €", "\u02d8\u02dd\u2022\u20ac\u0141\u017e"}[r.IntN(6)]
+			info.Title = pdf.TextString(t)
+			res.InfoDict["Title"] = pdf.TextString(t).AsPDF(x.w.GetOptions())
+		}
+		if r.IntN(3) == 0 {
+			info.Author = "A. U. Thor"
+			res.InfoDict["Author"] = pdf.TextString("A. U. Thor").AsPDF(x.w.GetOptions())
+		}
 	}
-	if r.IntN(3) == 0 {
-		info.Author = "A. U. Thor"
-		res.InfoDict["Author"] = pdf.TextString("A. U. Thor").AsPDF(x.w.GetOptions())
-	}
-	switch r.IntN(4) {
-	case 0:
+	switch k := r.IntN(4); {
+	case k == 0 && len(plan.InfoTexts) == 0:
 		meta.Info = nil
 	default:
 		meta.Info = info
